@@ -115,6 +115,17 @@ Fixpoint probe_accs (acc : Z) (evs : list event) : list Z :=
   end.
 
 (* ---------------------------------------------------------------------------------------- *)
+(* one State used for several evaluations (render_captured, then State::call_macro /          *)
+(* State::render_block ...): every evaluation is watched by the same tracker, which keeps its  *)
+(* state from one evaluation to the next, also after one of them ran out of fuel               *)
+(* ---------------------------------------------------------------------------------------- *)
+Fixpoint run_ops (t : tracker) (ops : list (list Z)) : tracker :=
+  match ops with
+  | [] => t
+  | costs :: r => let '(_, t', _) := watch track t costs in run_ops t' r
+  end.
+
+(* ---------------------------------------------------------------------------------------- *)
 (* fuel_for_instruction: the table generated from vm/fuel.rs (C13/GenFuelTable.v); opcodes are  *)
 (* identified by the position of their variant in `enum Instruction`                          *)
 (* ---------------------------------------------------------------------------------------- *)
